@@ -195,13 +195,17 @@ RetOK(op, a, exp, obs) ==
 \* and that fails exactly when the operation fails.  R is the transition of the fronted operation.
 CliObj(x, o) == [x EXCEPT !.pol = 0, !.al = o.al,
                           !.len = IF x.k = "align" THEN (IF Len(x.rows) = 0 THEN -1 ELSE Len(x.rows[1].s)) ELSE x.len]
-CliOf(o, R) ==
+\* commands that print numbers (tables of counts, majority characters, ...): nothing is read back, the printed values
+\* are the return record of the query
+CliQueryOps == {"CharStats", "CharStatsSeq", "CountProfile", "MaxCharStats", "AvgAllelesPerSite"}
+CliOf(op, o, R) ==
   IF R.err THEN Fail(o)
+  ELSE IF op \in CliQueryOps THEN Res(FALSE, o, <<>>, R.ret, R.j)
   ELSE Res(FALSE, o, <<CliObj(IF Len(R.new) > 0 THEN R.new[1] ELSE R.o, o)>>, R.ret, R.j)
 \* operations that have a command-line twin in the harness (harness/heap_cli.go)
 CliOps == {"RemoveGapSites", "RemoveCharacterSites", "RemoveMajorityCharacterSites", "RemoveGapSeqs", "RemoveCharacterSeqs",
            "ReverseComplement", "Sort", "Consensus", "DiffWithFirst", "ReplaceMatchChars", "Translate", "TranslateByReference",
-           "Deduplicate", "Compress", "Mask", "MaskOccurences", "MaskUnique", "SubAlign", "Replace"}
+           "Deduplicate", "Compress", "Mask", "MaskOccurences", "MaskUnique", "SubAlign", "Replace"} \cup CliQueryOps
 
 CliCreators == {"Consensus", "SubAlign"}      \* the command prints the object the operation creates, not the receiver
 
